@@ -761,12 +761,13 @@ func genArith() {
 }
 
 // trReturn: the value of the function.
-//   bare return                     -> tuple of the named results
-//   return e1, .., en               -> tuple of the expressions
-//   return T{a, b, c}               -> tuple (a, b, c)
-//   return pkg.T{a, b, c}.M()       -> tuple (a, b, c); the callee is recorded in <name>_via
-//   return v  (a []byte variable)   -> v
-//   return nil (error result)       -> Ok of the pointer receiver's components
+//
+//	bare return                     -> tuple of the named results
+//	return e1, .., en               -> tuple of the expressions
+//	return T{a, b, c}               -> tuple (a, b, c)
+//	return pkg.T{a, b, c}.M()       -> tuple (a, b, c); the callee is recorded in <name>_via
+//	return v  (a []byte variable)   -> v
+//	return nil (error result)       -> Ok of the pointer receiver's components
 func (t *atr) trReturn(r *ast.ReturnStmt, errResult bool) string {
 	wrapOk := func(s string) string {
 		if t.monadic {
